@@ -418,6 +418,8 @@ Definition wf_request (r : request) : bool :=
 (* configuration domain: the Via entry is a proper field value; the operator does not disable the
    framing fields (removing them cannot preserve the message) *)
 Definition wf_cfg (cfg : fcfg) : bool :=
+  (* the tree after the fix: commits C02-via-append and C02-upgrade-request-in-progress *)
+  cf_via_append cfg && cf_upgrade_complete cfg &&
   nonempty (cf_agent cfg) && rfc_value (cf_agent cfg) &&
   negb (mem_bytes CONTENT_LENGTH (cf_disable cfg)) && negb (mem_bytes TRANSFER_ENCODING (cf_disable cfg)).
 
@@ -452,8 +454,17 @@ Definition framing_nv (f : rframing) : list (bytes * bytes) :=
 Definition client_fields (r : request) : list (bytes * bytes) :=
   map field_nv (q_hs1 r) ++ framing_nv (q_framing r) ++ map field_nv (q_hs2 r).
 
+(* the Via field names the proxy: its entry is appended to a Via field the client sent (the field then
+   takes the spelling "Via"), otherwise a Via field is added after the last field *)
+Definition via_appended (agent : bytes) (hs : list (bytes * bytes)) : list (bytes * bytes) :=
+  match get_ci L_VIA hs with
+  | Some old => set_field H_VIA (old ++ COMMA_SP ++ via_entry agent) hs
+  | None => hs ++ [(H_VIA, via_entry agent)]
+  end.
+
+(* hop-by-hop proxy fields removed, Via, operator-disabled fields removed (a disabled "via" removes Via too) *)
 Definition expected_headers (cfg : fcfg) (r : request) : list (bytes * bytes) :=
-  drop_disabled cfg (with_via cfg (drop_hop (client_fields r))).
+  drop_disabled cfg (via_appended (cf_agent cfg) (drop_hop (client_fields r))).
 
 Definition expected_fwd (cfg : fcfg) (r : request) : fwd :=
   {| f_method := q_method r; f_target := origin_form (q_target r); f_version := q_version r;
